@@ -37,6 +37,14 @@ def make_container(kind, cyl, spt, scratch, tag, nocat_side1=False):
     return path, {0: "0", 1: "2"}, nfile
 
 
+def gz_member(data, fname=None):
+    """One RFC 1952 member (optionally with a file-name field, used as padding)."""
+    import zlib, struct
+    co = zlib.compressobj(6, zlib.DEFLATED, -15)
+    return (bytes([0x1F, 0x8B, 8, 8 if fname else 0, 0, 0, 0, 0, 0, 3]) + (fname + b"\0" if fname else b"") + co.compress(data) + co.flush() +
+            struct.pack("<II", zlib.crc32(data) & 0xFFFFFFFF, len(data) & 0xFFFFFFFF))
+
+
 def shown_sector(o, stamps):
     """dump-sector output -> file sector index / -1 clean failure / -2 anything else"""
     if o.rc != 0:
@@ -124,6 +132,20 @@ def run(chk, tier, seed):
                             continue
                         jobs.append(dict(kind="mmb", cyl=80, spt=10, side=slot, t=t, s=s))
 
+        # the same files as two-member gzip streams whose first member ends exactly on a 512-byte boundary of the compressed file
+        # (the reader's input-buffer size): the surface behind X.gz is documented to be the surface behind X, so every sector of it
+        # - those stored in the second member included - is at the same documented offset
+        gzfiles = {}
+        for key, (path_, drives_, nfile_) in files.items():
+            data = open(path_, "rb").read()
+            m1 = gz_member(data[: len(data) // 2])
+            m1 = gz_member(data[: len(data) // 2], fname=b"p" + b"q" * ((0 - len(m1) - 2) % 512))
+            if len(m1) % 512 == 0:
+                sub = os.path.join(scratch, "gz2")
+                os.makedirs(sub, exist_ok=True)
+                gzfiles[key] = mkdisc.write(os.path.join(sub, os.path.basename(path_) + ".gz"), m1 + gz_member(data[len(data) // 2:]))
+        chk.extra["two_member_gz_containers"] = len(gzfiles)
+
         def do(c):
             if c["kind"] == "mmb":
                 o = common.run([dfs, "--drive-first", "--file", mpath, "dump-sector", str(c["side"]), str(c["t"]), str(c["s"])], timeout=60)
@@ -142,6 +164,8 @@ def run(chk, tier, seed):
                 path, drives, nfile = files[(c["kind"], c["cyl"], c["spt"])]
                 # (numbers are decimal however they are written: every third job writes them zero-padded, as `seq -w` or %02d would)
                 pad = (lambda n: "%03d" % n) if (c["t"] + c["s"] + c["side"]) % 3 == 0 else str
+                if (c["t"] * 7 + c["s"] + c["side"]) % 4 == 1:
+                    path = gzfiles.get((c["kind"], c["cyl"], c["spt"]), path)
                 o = common.run([dfs, "--file", path, "dump-sector", drives[c["side"]], pad(c["t"]), pad(c["s"])], timeout=30)
                 obs = shown_sector(o, stamps)
             return dict(c, e="sector", obs=obs)
